@@ -94,6 +94,10 @@ class C13(Check):
             cfg["recalc"] = None
         n = cfg["nnoise"] if strategy != "dimension_wise_uq" else 6
         cfg["reference"] = [0.0] * n if r.random() < 0.2 else [r.choice([0.5, -0.3, 2.0, 0.05]) for _ in range(n)]
+        t = stream(rk, "tiny_reference")
+        if t.random() < 0.08 and any(cfg["reference"]):
+            # a reference of very small magnitude is still a non-zero reference: the error is the relative deviation
+            cfg["reference"] = [v * t.choice([1e-9, 1e-10, 1e-12]) for v in cfg["reference"]]
         tol = r.choice([0.0, 0.05, 0.3, 1.0, 3.0, 50.0])
         mn = r.choice([1, 1, 1, 20, 60, 150])
         mx = r.choice([3, 10, 40, 90, 150, 300])
